@@ -27,6 +27,10 @@ def import_dds() -> Any:
     import dds  # noqa
     import logging
     logging.getLogger("dds").setLevel(logging.ERROR)
+    try:    # warm import for the notebook-cells workers (forked children inherit it)
+        import IPython.core.interactiveshell  # noqa
+    except ImportError:
+        pass
     f = os.path.realpath(dds.__file__)
     if not f.startswith(os.path.realpath(REPO) + os.sep):
         raise MachineryError("dds imported from %s, not from %s" % (f, REPO))
@@ -91,6 +95,11 @@ def _replay_task(a) -> Tuple[int, Dict[int, Dict[str, Any]], float]:
     root = os.path.join(root_base, "h%d_%s" % (idx, mode))
     t0 = time.time()
     try:
+        if mode == "cells":
+            from . import envprops
+            os.makedirs(os.path.join(root, "cwd_home"), exist_ok=True)
+            obs = envprops.run_cells(shape, hist, root, {"cwd": "home", "debug": True})
+            return (idx, obs, time.time() - t0)
         obs = replay.replay(shape, hist, root, store_kind, mode=mode, loads_after_eval=loads,
                             options=options, eval_kwargs=eval_kwargs, accept=accept, pristine_env=pristine)
     finally:
